@@ -91,8 +91,16 @@ def wide_one(m, seeds, nvals):
 
     def cnt(k, n=1):
         stats[k] = stats.get(k, 0) + n
-    lines = ["wfill %s %d %d" % (tn, seeds.below(100000), seeds.choice([8, 32, 64, 200])) for tn, _ in m["defs"] for _ in range(nvals)]
-    outs, ev = widefind.run_robust(m["exe"], lines, line_timeout=6)
+    if m.get("fixed_values"):       # the hand-made boundary module: values given as DER, validated by the same deep walk
+        lines = ["facts %s der %s" % (tn, v) for tn in sorted(m["fixed_values"]) for v in m["fixed_values"][tn]]
+        outs, ev = widefind.run_robust(m["exe"], lines)
+        outs = ["OK %s ck=0 %s" % (l.split()[3], o) if o.startswith("dck=") else o for l, o in zip(lines, outs)]
+        for l, o in zip(lines, outs):
+            if " dck=0 " not in o:
+                res.append((l.split()[1], l.split()[3], "-", "der", "BOUNDARY-VALUE-REJECTED:" + o.replace(" ", "_"), "", l))
+    else:
+        lines = ["wfill %s %d %d" % (tn, seeds.below(100000), seeds.choice([8, 32, 64, 200])) for tn, _ in m["defs"] for _ in range(nvals)]
+        outs, ev = widefind.run_robust(m["exe"], lines, line_timeout=6)
     # a driver death (or a hang: exponential self-recursion) inside asn_random_fill (assertion `range < intmax_max' on INTEGER (0..9223372036854775807)) is a defect
     # of the value SOURCE, not of a codec: the value is unusable
     cnt("wide_fill_crash", len([e for e in ev if e[1] != "EXIT"]))
@@ -148,7 +156,7 @@ def wide_layer(run, wmods, wrng, tier):
     built = [m for m in wmods if m.get("exe")]
     run.count("wide_module_not_built", len(wmods) - len(built))     # C10's business (and its findings); not a C01 statement
     subs = [Rng(wrng.next()) for _ in built]
-    nvals = 4 if tier == "quick" else 12
+    nvals = 10 if tier == "quick" else 16
     with ThreadPoolExecutor(max_workers=8) as ex:
         results = list(ex.map(lambda a: wide_one(a[0], a[1], nvals), zip(built, subs)))
     for m, (stats, res, cases, first) in zip(built, results):
@@ -185,7 +193,7 @@ def main(tier):
         wmods = []
         if WIDE:
             wrng = Rng(rng.next())
-            wmods = widefind.generate(wrng, 10 if tier == "quick" else 60, 5)
+            wmods = [widefind.boundary_module()] + widefind.generate(wrng, 12 if tier == "quick" else 60, 5)
             build_modules(wmods, tag="wide", moddrv_extra=widefind.EXTRA)
     except BuildError as e:
         run.violation("build", {"what": str(e)[-2500:]}, no_input=True)
